@@ -113,10 +113,18 @@ def block_machines():
     out.append(("ortho_interrupt", md, opss))
     return out
 
+def pseudo_machines():
+    sub = machine([state(), state(), state(kind=["exitpt", 6])], [0], [row(10, 0, 5, 1), row(11, 1, 7, 2, act="call")])
+    root = machine([state(), state(sub=sub)], [0], [row(1, 0, 4, 1), row(2, 1, 6, 0, act="call", exitpt=2)])
+    md = mdef(root, 4)
+    ops = [("start", [], []), ("process", 4, 1, [], []), ("process", 6, 2, [], []), ("process", 5, 3, [], []),
+           ("process", 6, 4, [], []), ("process", 7, 5, [], [])]
+    return [("exitpt_outside", md, [ops])]
+
 def main():
     os.makedirs(os.path.join(VERIF, "corpus"), exist_ok=True)
     n = 0
-    for name, md, opss in fwd_machines() + ortho_machines() + block_machines():
+    for name, md, opss in fwd_machines() + ortho_machines() + block_machines() + pseudo_machines():
         save(name, md, opss)
         n += 1
     print("wrote %d corpus machines" % n)
